@@ -119,6 +119,7 @@ func (l *L2) WaitReturn(d time.Duration) bool {
 		l.cancel()
 		return true
 	case <-time.After(d):
+		noReturns++
 		return false
 	}
 }
@@ -180,14 +181,31 @@ func (l *L2) settle() {
 	// after an injected fault Read is expected to return: wait for it (a swallowed error shows as "no return")
 	d := 2 * time.Millisecond
 	if l.W.Enc.Failed() || l.expectReturn {
-		d = 1500 * time.Millisecond
+		d = faultWait()
 	}
 	select {
 	case err := <-l.done:
 		l.RetErr, l.Retd = err, true
 		l.cancel() // the errgroup cancels the shared context when a worker returns
 	case <-time.After(d):
+		if d > 2*time.Millisecond {
+			noReturns++
+		}
 	}
+}
+
+// noReturns counts injected faults after which Read did not return; once that has been seen a few times the
+// (generous) wait is shortened: the behaviour is established and the run should not take hours.
+var noReturns int
+
+// FaultWait is how long to wait for Read to return after an injected fault.
+func FaultWait() time.Duration { return faultWait() }
+
+func faultWait() time.Duration {
+	if noReturns > 8 {
+		return 120 * time.Millisecond
+	}
+	return 1500 * time.Millisecond
 }
 
 // ExpectReturn tells the driver that the step just performed injected a fault.
